@@ -318,6 +318,11 @@ impl<'tx> TxInner<'tx> {
                     file.write_all(buf)?;
                 }
             }
+
+            // Make sure the new pages are on disk before the meta page that points to them,
+            // otherwise a crash could leave a valid meta page referring to pages that were never written.
+            file.flush()?;
+            file.sync_all()?;
         }
         if self.db.inner.flags.strict_mode {
             self.check()?;
